@@ -124,3 +124,19 @@ Theorem C05_unregistered_index_only_refused :
     get_acs_endpoint md rq = None.
 Proof. exact unregistered_index_only_refused. Qed.
 Print Assumptions C05_unregistered_index_only_refused.
+
+(* Registered metadata that reaches the registry through the XML parser: the
+   endpoint the IdP routes by is built from Binding, Location, index, isDefault
+   only — the optional ResponseLocation attribute never reaches Location — and
+   its Location is the document's Location or blank (unknown binding). *)
+Theorem C05_parse_ignores_response_location :
+  forall b l rl rl' i d,
+    parse_endpoint {| re_binding := b; re_location := l; re_response_location := rl; re_index := i; re_default := d |}
+    = parse_endpoint {| re_binding := b; re_location := l; re_response_location := rl'; re_index := i; re_default := d |}.
+Proof. exact parse_endpoint_ignores_response_location. Qed.
+Print Assumptions C05_parse_ignores_response_location.
+
+Theorem C05_parsed_location_is_registered_or_blank :
+  forall r, ep_location (parse_endpoint r) = re_location r \/ ep_location (parse_endpoint r) = "".
+Proof. exact parse_endpoint_location. Qed.
+Print Assumptions C05_parsed_location_is_registered_or_blank.
